@@ -11,6 +11,7 @@
 From Coq Require Import List ZArith Bool Sorting.Sorted Sorting.Permutation SetoidList.
 From PB Require Import Base.PBytes Desc.DescRangesModel Desc.DescRangesP
   Desc.DescLookupModel Desc.DescLookupP Desc.DescStructP.
+From PB Require Import Base.GoInt Desc.GoPairs Gen.RangesGo Desc.RangesGoP.
 Import ListNotations.
 Open Scope Z_scope.
 
@@ -241,3 +242,109 @@ Example C36_build_nonvacuous :
   /\ md_required m = [1] /\ map od_fields (md_oneofs m) = [[1%nat; 2%nat]]
   /\ map fd_fullname (md_fields m) = [pM ++ [dot; "a"]; pM ++ [dot; "x"]; pM ++ [dot; "y"]]%byte.
 Proof. eexists. vm_compute. repeat split; reflexivity. Qed.
+
+(* ================= Tier T: the translated source of internal/filedesc/desc_list.go =================
+   Gen/RangesGo.v is regenerated from the repository on every run (srcmodel_ranges).  l is p.List, s is
+   what lazyInit leaves in p.sorted: ANY permutation of l sorted by start (sort.Slice is not translated; its
+   source text is pinned by C36_go_accessors_and_lazyInit_pinned).  Slices are shorter than 2^63 elements
+   (Go's int). *)
+From Coq Require String.
+Import String.StringSyntax.
+Local Open Scope string_scope.
+
+(* EnumRanges.Has as written in the source: never panics, never loops forever (no Panic / Fuel outcome),
+   never reports a number no listed range contains, and — when the translated CheckValid returns nil —
+   is exactly membership.  All int32 numbers, all lists. *)
+Theorem C36_go_EnumRanges_Has_iff_member : forall l s n,
+  Permutation s l -> len s <= 9223372036854775807 ->
+  (go_EnumRanges_Has s n = Val true \/ go_EnumRanges_Has s n = Val false) /\
+  (go_EnumRanges_Has s n = Val true -> exists r, In r l /\ contains EnumR r n) /\
+  (go_EnumRanges_CheckValid s = ENil ->
+   (go_EnumRanges_Has s n = Val true <-> exists r, In r l /\ contains EnumR r n)).
+Proof. exact (fun l s n Hp Hl => go_has_iff_member EnumR l s Hp Hl false n). Qed.
+Print Assumptions C36_go_EnumRanges_Has_iff_member.
+
+Example C36_go_EnumRanges_Has_nonvacuous :
+  go_EnumRanges_CheckValid [(-5, -1); (3, 2147483647)] = ENil /\
+  go_EnumRanges_Has [(-5, -1); (3, 2147483647)] 2147483647 = Val true /\
+  go_EnumRanges_Has [(-5, -1); (3, 2147483647)] 0 = Val false.
+Proof. vm_compute. auto. Qed.
+
+(* FieldRanges.Has: the same, with fieldRange.End() = r[1] - 1 computed in int32 as the source does
+   (contains FieldR uses the wrapped end; C36_field_range_halfopen relates it to start <= n < end) *)
+Theorem C36_go_FieldRanges_Has_iff_member : forall l s ms n,
+  Permutation s l -> len s <= 9223372036854775807 ->
+  (go_FieldRanges_Has s n = Val true \/ go_FieldRanges_Has s n = Val false) /\
+  (go_FieldRanges_Has s n = Val true -> exists r, In r l /\ contains FieldR r n) /\
+  (go_FieldRanges_CheckValid s ms = ENil ->
+   (go_FieldRanges_Has s n = Val true <-> exists r, In r l /\ contains FieldR r n)).
+Proof. exact (fun l s ms n Hp Hl => go_has_iff_member FieldR l s Hp Hl ms n). Qed.
+Print Assumptions C36_go_FieldRanges_Has_iff_member.
+
+Example C36_go_FieldRanges_Has_nonvacuous :
+  go_FieldRanges_CheckValid [(1, 5); (5, 7); (100, 2147483647)] true = ENil /\
+  go_FieldRanges_Has [(1, 5); (5, 7); (100, 2147483647)] 6 = Val true /\
+  go_FieldRanges_Has [(1, 5); (5, 7); (100, 2147483647)] 2147483646 = Val true /\
+  go_FieldRanges_Has [(1, 5); (5, 7); (100, 2147483647)] 2147483647 = Val false /\
+  go_FieldRanges_Has [(1, 5); (5, 7); (100, 2147483647)] 7 = Val false.
+Proof. vm_compute. auto 6. Qed.
+
+(* CheckValid as written in the source returns nil exactly for the lists whose ranges are well formed
+   and pairwise disjoint; and it returns the error of the same site as the model, site for site *)
+Theorem C36_go_CheckValid_spec : forall l s ms,
+  Permutation s l -> StronglySorted start_le s ->
+  (go_EnumRanges_CheckValid s = ENil <-> Forall (range_ok EnumR ms) l /\ ForallOrdPairs (disjoint EnumR) l) /\
+  (go_FieldRanges_CheckValid s ms = ENil <-> Forall (range_ok FieldR ms) l /\ ForallOrdPairs (disjoint FieldR) l) /\
+  go_EnumRanges_CheckValid s = cverr_go (check_valid_loop EnumR ms true (0, 0) s) /\
+  go_FieldRanges_CheckValid s ms = cverr_go (check_valid_loop FieldR ms true (0, 0) s).
+Proof.
+  exact (fun l s ms Hp Hs =>
+    conj (go_check_valid_spec EnumR l s Hp Hs ms) (conj (go_check_valid_spec FieldR l s Hp Hs ms)
+      (conj (go_EnumRanges_CheckValid_model ms s) (go_FieldRanges_CheckValid_model ms s)))).
+Qed.
+Print Assumptions C36_go_CheckValid_spec.
+
+Example C36_go_CheckValid_nonvacuous :
+  go_FieldRanges_CheckValid [(1, 5); (4, 7)] false = E_err_overlapping_ranges /\
+  go_FieldRanges_CheckValid [(1, 536870913)] false = E_err_invalid_field_number /\
+  go_FieldRanges_CheckValid [(1, 536870913)] true = ENil /\
+  go_FieldRanges_CheckValid [(5, 5)] false = E_err_invalid_range /\
+  go_EnumRanges_CheckValid [(1, 5); (5, 7)] = E_err_overlapping_ranges.
+Proof. vm_compute. auto 6. Qed.
+
+(* CheckOverlap as written in the source: never panics / runs out of fuel, and reports an error iff
+   a range of one list intersects a range of the other, for lists that pass the translated CheckValid *)
+Theorem C36_go_CheckOverlap_spec : forall p q ps qs msp msq,
+  Permutation ps p -> Permutation qs q -> len ps + len qs <= 9223372036854775807 ->
+  go_FieldRanges_CheckValid ps msp = ENil -> go_FieldRanges_CheckValid qs msq = ENil ->
+  (go_FieldRanges_CheckOverlap ps qs = Val ENil \/
+   go_FieldRanges_CheckOverlap ps qs = Val E_err_overlapping_ranges) /\
+  (go_FieldRanges_CheckOverlap ps qs = Val E_err_overlapping_ranges <->
+   exists rp rq, In rp p /\ In rq q /\ intersects FieldR rp rq = true).
+Proof. exact go_check_overlap_spec. Qed.
+Print Assumptions C36_go_CheckOverlap_spec.
+
+Example C36_go_CheckOverlap_nonvacuous :
+  go_FieldRanges_CheckOverlap [(1, 5); (10, 20)] [(5, 10); (19, 30)] = Val E_err_overlapping_ranges /\
+  go_FieldRanges_CheckOverlap [(1, 5); (10, 20)] [(5, 10); (20, 30)] = Val ENil.
+Proof. vm_compute. auto. Qed.
+
+(* the accessors and the number check of the source are those of the model (fieldRange.End wraps in int32),
+   the constants are protowire's, and the text of the untranslated lazyInit is the one the model of the
+   sorted copy (sort by r[0] of a copy of List) was written against *)
+Theorem C36_go_accessors_and_lazyInit_pinned :
+  (forall r, go_enumRange_Start r = r_start r /\ go_enumRange_End r = r_end EnumR r /\
+             go_fieldRange_Start r = r_start r /\ go_fieldRange_End r = r_end FieldR r) /\
+  (forall n ms, go_isValidFieldNumber n ms = valid_field_number n ms) /\
+  (c_MinValidNumber = 1 /\ c_MaxValidNumber = 536870911) /\
+  go_fieldRange_End (0, -2147483648) = 2147483647 /\
+  (c_EnumRanges_lazyInit_src =
+    "func (p *EnumRanges) lazyInit() *EnumRanges { p.once.Do(func() { p.sorted = append(p.sorted, p.List...) sort.Slice(p.sorted, func(i, j int) bool { return p.sorted[i][0] < p.sorted[j][0] }) }) return p }" /\
+   c_FieldRanges_lazyInit_src =
+    "func (p *FieldRanges) lazyInit() *FieldRanges { p.once.Do(func() { p.sorted = append(p.sorted, p.List...) sort.Slice(p.sorted, func(i, j int) bool { return p.sorted[i][0] < p.sorted[j][0] }) }) return p }").
+Proof.
+  exact (conj (fun r => conj (go_enumRange_Start_model r) (conj (go_enumRange_End_model r)
+                  (conj (go_fieldRange_Start_model r) (go_fieldRange_End_model r))))
+        (conj go_isValidFieldNumber_model (conj ranges_constants_match_source (conj eq_refl lazyInit_pinned)))).
+Qed.
+Print Assumptions C36_go_accessors_and_lazyInit_pinned.
